@@ -3,17 +3,19 @@ EXTENDS Interop, Json, CSV, IOUtils
 ShapesA == {<<4>>, <<2, 3>>, <<2, 2, 2>>}
 ShapesB == {<<5>>, <<3, 2>>, <<2, 1, 3>>, <<1>>}
 ShapesNone == {}
+ScalesAll == {<<0>>, <<1>>, <<0, 0>>, <<0, 1>>, <<1, 0>>, <<1, 1>>, <<0, 0, 0>>, <<0, 1, 1>>, <<1, 0, 1>>}
+ScalesNo == {<<0>>, <<0, 0>>, <<0, 0, 0>>}
 RDimsA == {<<4, 3>>}
 RDimsB == {<<4, 3>>, <<5, 2>>, <<130, 2>>}
 RDimsNone == {}
 Ev(o, a, x) == [op |-> o, args |-> a, out |-> x]
-SdsItems == [i \in 1..Len(sds') |-> [shape |-> sds'[i].shape, type |-> sds'[i].type, k |-> sds'[i].k]]
+SdsItemsFor(r) == [i \in 1..Len(sds') |-> [shape |-> sds'[i].shape, type |-> sds'[i].type, k |-> sds'[i].k, scales |-> ScalesSeen(r, sds'[i])]]
 NcItems  == [i \in 1..Len(sds') |-> [shape |-> sds'[i].shape, size |-> SizeOf[sds'[i].type], float |-> IsFloat(sds'[i].type), k |-> sds'[i].k]]
 RasItems(r) == LET vis == SelectSeq(ras', LAMBDA e : VisibleTo(r, e)) IN
                [i \in 1..Len(vis) |-> [dims |-> vis[i].dims, ncomp |-> vis[i].ncomp, k |-> vis[i].k, pal |-> vis[i].pal]]
 SdW == SelectSeq(sds', LAMBDA e : e.writer \in {"SD", "NC"})
 GrW == SelectSeq(ras', LAMBDA e : e.writer = "GR")
-Audit == <<Ev("ListSds", [api |-> "SD"], [items |-> SdsItems]), Ev("ListSds", [api |-> "DFSD"], [items |-> SdsItems]), Ev("ListSdsNc", [a |-> 0], [items |-> NcItems]),
+Audit == <<Ev("ListSds", [api |-> "SD"], [items |-> SdsItemsFor("SD")]), Ev("ListSds", [api |-> "DFSD"], [items |-> SdsItemsFor("DFSD")]), Ev("ListSdsNc", [a |-> 0], [items |-> NcItems]),
            Ev("ListRas", [api |-> "GR"], [items |-> RasItems("GR")]), Ev("ListRas", [api |-> "DFR8"], [items |-> RasItems("DFR8")]),
            Ev("ListRas", [api |-> "DF24"], [items |-> RasItems("DF24")]),
            Ev("VViews", [a |-> 0], [vars |-> [i \in 1..Len(SdW) |-> SdW[i].k], images |-> [i \in 1..Len(GrW) |-> GrW[i].k]])>>
